@@ -16,6 +16,7 @@
 (*  {"e":"rx","srv":k,"f":[8],"tx":[[8]...],"chg":[[idx,sub]...],"app":n}  *)
 (*  {"e":"dump","idx":i,"sub":s,"data":[...]}                              *)
 (*  {"e":"reset"}   a new node is started with the logged dictionary       *)
+(*  {"e":"nmtreset"} NMT reset communication received by the running node  *)
 (* While the reference does not know the server's state (after a step the  *)
 (* properties leave open) it follows the same rule as CoSsdoGen: idle,     *)
 (* objects named by initiates become unknown, until the next client abort. *)
@@ -83,7 +84,14 @@ TDump ==
   /\ UNCHANGED <<s, d, sync, open, nd>>
 TReset == /\ Ev.e = "reset" /\ nd' = nd
           /\ s' = [k \in 1..NSrv |-> Idle] /\ d' = D0 /\ sync' = [k \in 1..NSrv |-> TRUE] /\ open' = [k \in 1..NSrv |-> 0]
-TNext == l <= Len(TraceLog) /\ l' = l + 1 /\ (TRx \/ TDump \/ TReset)
+\* NMT reset communication while transfers may be running (C05 / C20: "the same holds after an NMT reset communication", for every
+\* server): all servers idle and known again; the target of a download that was open is left as that transfer left it (unknown)
+RECURSIVE DropAll(_, _)
+DropAll(dd, k) == IF k = 0 THEN dd ELSE DropAll(Unk(DropTransfer(s[k], dd), open[k]), k - 1)
+TNmtReset == /\ Ev.e = "nmtreset" /\ nd' = nd
+             /\ s' = [k \in 1..NSrv |-> Idle] /\ sync' = [k \in 1..NSrv |-> TRUE] /\ open' = [k \in 1..NSrv |-> 0]
+             /\ d' = DropAll(d, NSrv)
+TNext == l <= Len(TraceLog) /\ l' = l + 1 /\ (TRx \/ TDump \/ TReset \/ TNmtReset)
 TSpec == TInit /\ [][TNext]_tvars
 Accepted == TLCGet("stats").diameter = Len(TraceLog)
 InvSrvT == \A k \in 1..NSrv : SrvOK(s[k], d)
